@@ -11,6 +11,16 @@ for src in sorted(glob.glob(os.path.join(vlib.VERIF, "harness", "fuzz_*.cpp"))):
     jobs.append((os.path.basename(src)[:-4], "fuzz"))
 for src in sorted(glob.glob(os.path.join(vlib.VERIF, "harness", "w_*.cpp"))):
     jobs.append((os.path.basename(src)[:-4], "plain"))
+def one(j):
+    # a harness that does not build is not fatal for setup: its own check reports BUILD-ERROR when it is run
+    try:
+        vlib.build_harness(j[0], j[1])
+        return 1
+    except BaseException as e:
+        print("prebuild: %s not built (%s)" % (j[0], str(e)[:120]))
+        return 0
+
+
 with ThreadPoolExecutor(max_workers=8) as ex:
-    list(ex.map(lambda j: vlib.build_harness(j[0], j[1]), jobs))
-print("prebuilt", len(jobs), "harnesses")
+    n = sum(ex.map(one, jobs))
+print("prebuilt", n, "of", len(jobs), "harnesses")
